@@ -36,6 +36,11 @@ CHECKS = {
    text="Translation validation per configuration: random machines (opcode families, modes ha/vn/hy, register sizes, shared objects attached to processors, bonds) are rendered with Bondmachine.Write_verilog, every file except the test bench is parsed (Verilog-2001 front-end) and the design is linted by Vlog.Lint evaluated inside Coq. Twelve genuine defect classes of the unchanged tree are recorded as known findings with narrow keys (class, module kind, identifier); any other error is a violation. The soundness theorem of the linter against a declarative well-formedness predicate is not proved yet (only structural lemmas), hence the category.",
    design_ref="DESIGN.md section 5, C18",
    note="Trusted: lib/vparse.py, lib/vcoq.py (front-end), Vlog/Lint.v as the definition of the six error classes, Coq vm_compute. Implicit nets are accepted where Verilog-2001 allows them (port connections, continuous-assignment targets)."),
+ "C09": dict(
+   technique="Coq proof that the tick result is independent of the processors' execution order and of interleaving with other simulations (model Net.Tick); forced-schedule and concurrent-run differential testing of the Go simulator through a verif-tagged yield hook",
+   text="Proof (partial): on the model of bondmachine.VM.Step, stepping the processors in any complete order gives the state Net.Tick.tick computes, any two complete orders agree, and in every interleaving of two simulations each ends in the state of its solo run. The model is tied to the Go simulator by per-tick full-state comparison, and the simulator itself is run under forced start orders of the processor workers (hook), GOMAXPROCS 1-16 and concurrent simulations, comparing per-tick digests. Not proved: absence of data races (Go memory model) - the race detector is run in the thorough tier as supporting evidence; the token/answer barrier of VM.Step is exercised, not modelled.",
+   design_ref="DESIGN.md section 5, C09",
+   note="Trusted: Coq kernel; Isa/Sim.v and Net/Tick.v as models (tied by correspondence); harness c09/sim commands; hook commit 6ef07ff."),
 }
 NOT_APPLICABLE = []
 
